@@ -103,6 +103,12 @@ class relative_expression:
                 for direction in ("ago", "in"):
                     out.append(dict(units=[u], digits=[2], dir=direction, clock=True,
                                     RETURN_TIME_AS_PERIOD=rtp, PREFER_DATES_FROM="current_period"))
+        # the same with seconds written (HH:MM:SS)
+        for u in (("day", "week", "month") if thorough else ("day",)):
+            for rtp in (False, True):
+                for direction in ("ago", "in"):
+                    out.append(dict(units=[u], digits=[2], dir=direction, clock="hms",
+                                    RETURN_TIME_AS_PERIOD=rtp, PREFER_DATES_FROM="current_period"))
         # in + ago together: "in" wins (the code's rule; the statement does not cover it) - skipped
         return out
 
@@ -119,6 +125,8 @@ class relative_expression:
             tpl.append(" ago")
         if case.get("clock"):
             tpl += [" ", ("H", 2), ":", ("T", 2)]
+        if case.get("clock") == "hms":
+            tpl += [":", ("S", 2)]
         return tpl
 
     @staticmethod
@@ -134,6 +142,8 @@ class relative_expression:
         s, f = build(inp, relative_expression.template(case))
         if case.get("clock"):
             inp.assume(And(f["H"] <= 23, f["T"] <= 59))
+        if case.get("clock") == "hms":
+            inp.assume(f["S"] <= 59)
         F.pop_tz_offset_from_string = lambda string, as_offset=True: (string, None)
         obj = _DateLocaleParser(None, s, None, settings=st)
         obj._translated_date = s
@@ -163,7 +173,7 @@ class relative_expression:
         if case.get("clock"):
             H, T = f["H"], f["T"]
             # the clock time replaces the time of day of the shifted base
-            exp = o * DAY + ((H * 60 + T) * 60) * US
+            exp = o * DAY + ((H * 60 + T) * 60 + f.get("S", 0)) * US
             res["in-range=>calendar-arithmetic-with-clock-replaced"] = Implies(
                 in_range, dt_wall_us(r) == exp)
         else:
